@@ -49,8 +49,8 @@ def r1_ini_normalisation(cx):
     cx.require(ok, st[0] if st else pc, "the builder stores each option under its lower-cased name, the last value of duplicates winning", construct=short(st[0]) if st else "(none)")
     if st:
         lp = enclosing(st[0], ast.For)
-        g = set((U(e), p, o) for e, p, o in guards_ex(st[0], stop=lp))
-        cx.require(g <= set([("options", True, "exit-jump")]), st[0], "every option occurrence reaches the store (only an option without any value is skipped): a later spelling in another case must override the earlier one",
+        g = set((U(e), p) for e, p, o in guards_ex(st[0], stop=lp))
+        cx.require(g <= set([("options", True)]), st[0], "every option occurrence reaches the store (only an option without any value is skipped): a later spelling in another case must override the earlier one",
                    construct="store guarded by %s" % sorted(g))
     up = [x for x in find_calls(pc.body, attr="update") if U(x.func.value) == "self._dict[section.name]"]
     ok = len(up) == 1 and ("section.name in self._dict", True) in guard_texts(up[0]) and U(up[0].args[0]) == "section_dict"
